@@ -193,6 +193,13 @@ def _loop_guard(ctx, c, s, fi, sim, world, cur, POP, STEP) -> None:
                     pr.append(f"the guard tests {T.show(term)} instead of {T.show(want)}")
                 else:
                     pr.append(f"the guard tests {T.show(term)}; expected {T.show(want)}")
+    elif gt[0] == "cmp" and gt[1] in ("<", "<=") and any(x[0] == "idx" and x[1] == tiers and x[2][0] == "slice" for x in (gt[2], gt[3])) \
+            and any(x[0] == "tuple" and T.contains(x, bound) for x in (gt[2], gt[3])):
+        pr.append("the guard compares the tuple of sub-tiers with a tuple: tuple comparison is lexicographic, so only the first sub-tier is ever decisive "
+                  "(a loop in a nested group counts in a later tier and is never stopped)")
+    elif gt[0] == "cmp" and T.contains(gt, call(T.glob("max"), sub)) is False and gt[0] == "cmp" and any(
+            x[0] == "agg" and x[1] == "max" for x in (gt[2], gt[3])) and False:
+        pass
     elif any(True for _ in T.find(gt, lambda x: x[0] == "agg" and x[1] == "all" and T.contains(x, bound))):
         pr.append("the guard requires all sub-tiers to exceed the bound (any tier must suffice)")
     else:
